@@ -34,6 +34,8 @@ extern env_cli env_clients[ENV_MAXCLI];
 extern void *env_listen_ctx[5];         /* context registered for each listening port */
 extern int env_listen_fd[5];
 extern int env_wait_calls;
+extern int env_posted_completions;         /* bumped by async_runtime_post_completion() called from driver code */
+extern uintptr_t env_posted_key;
 
 /* hooks (set by the harness; defaults: no event + shutdown, full read, full send) */
 extern int (*env_wait_hook) (io_event_t *ev, int max, struct timeval *tmo);
@@ -50,6 +52,7 @@ int env_pending_connections (int port_index);
 int env_ev_listen (io_event_t *ev, int n, int port_index);
 int env_ev_cli (io_event_t *ev, int n, env_cli *c, uint32_t type);
 int env_ev_console (io_event_t *ev, int n);
+int env_ev_wakeup (io_event_t *ev, int n);              /* the event a timer wake-up produces in the epoll runtime */
 void env_tick (int seconds);                            /* advance the virtual clock and raise heart_beat_flag */
 void env_shutdown (void);                               /* make backend() leave through its own exit path */
 void env_console_line (const char *line);               /* what the console worker would enqueue */
@@ -58,3 +61,4 @@ void env_console_line (const char *line);               /* what the console work
 extern unsigned char *env_console_out;
 extern size_t env_console_out_len;
 extern int env_console_capture;
+extern int env_isatty_value;            /* answer of the wrapped isatty() (default 0: stdin is a pipe; 1: a real tty) */
